@@ -219,3 +219,106 @@ def r05k(R):
                 'defined (`%s`): a second `define %s ...` is accepted, the '
                 'loader keeps the later body and earlier calls run it'
                 % (norm(c.args[0]), name, name), line=c.lineno)
+
+
+STACK = 'bardolph.vm.call_stack'
+
+
+def _alias_or_fresh(e, param):
+    """What `e` evaluates to when `param` is an EMPTY container (falsy, not
+    None): 'alias' (the parameter object itself), 'fresh' (a new container)
+    or None (unknown)."""
+    def truth(t):
+        if isinstance(t, ast.Name) and t.id == param:
+            return False
+        if isinstance(t, ast.UnaryOp) and isinstance(t.op, ast.Not):
+            v = truth(t.operand)
+            return None if v is None else not v
+        if isinstance(t, ast.Compare) and len(t.ops) == 1 \
+                and isinstance(t.left, ast.Name) and t.left.id == param \
+                and isinstance(t.comparators[0], ast.Constant) \
+                and t.comparators[0].value is None:
+            if isinstance(t.ops[0], (ast.Is, ast.Eq)):
+                return False
+            if isinstance(t.ops[0], (ast.IsNot, ast.NotEq)):
+                return True
+        if isinstance(t, ast.Call) and norm(t.func) == 'len' and t.args \
+                and isinstance(t.args[0], ast.Name) and t.args[0].id == param:
+            return False
+        if isinstance(t, ast.Compare) and len(t.ops) == 1 \
+                and isinstance(t.left, ast.Call) and norm(t.left.func) == 'len' \
+                and t.left.args and norm(t.left.args[0]) == param \
+                and isinstance(t.comparators[0], ast.Constant):
+            k = t.comparators[0].value
+            op = t.ops[0]
+            table = {ast.Eq: 0 == k, ast.NotEq: 0 != k, ast.Gt: 0 > k,
+                     ast.GtE: 0 >= k, ast.Lt: 0 < k, ast.LtE: 0 <= k}
+            return table.get(type(op))
+        return None
+    if isinstance(e, ast.Name):
+        return 'alias' if e.id == param else None
+    if isinstance(e, (ast.Dict, ast.List, ast.Set)):
+        return 'fresh'
+    if isinstance(e, ast.Call) and norm(e.func) in ('dict', 'list', 'set') \
+            and not e.args:
+        return 'fresh'
+    if isinstance(e, ast.Call) and isinstance(e.func, ast.Attribute) \
+            and e.func.attr == 'copy':
+        return 'fresh'
+    if isinstance(e, ast.BoolOp):
+        for i, v in enumerate(e.values):
+            last = i == len(e.values) - 1
+            tv = truth(v)
+            if last:
+                return _alias_or_fresh(v, param)
+            if tv is None:
+                return None
+            if isinstance(e.op, ast.Or) and tv:
+                return _alias_or_fresh(v, param)
+            if isinstance(e.op, ast.And) and not tv:
+                return _alias_or_fresh(v, param)
+        return None
+    if isinstance(e, ast.IfExp):
+        tv = truth(e.test)
+        if tv is None:
+            return None
+        return _alias_or_fresh(e.body if tv else e.orelse, param)
+    return None
+
+
+@rule('R03.h', ('C03', 'C17'), 'the frames of a run do not share the '
+      'dictionary the CONSTANT instructions fill', floor=1,
+      decides='a parameter or local hides a name that a later `define` gives '
+              'a constant: the look-up chain of a frame starts with its '
+              'constants, so they must stay empty of run-time definitions')
+def r03h(R):
+    A = R.A
+    rs = A.func(STACK, 'CallStack.reset')
+    sf = A.cls(STACK, 'StackFrame')
+    # only relevant while constants come first in the look-up chain
+    gv = sf.methods['get_variable']
+    chain = []
+    for node in walk_own(gv.node):
+        if isinstance(node, ast.For) and isinstance(node.iter, (ast.Tuple, ast.List)):
+            chain = [self_attr(e) for e in node.iter.elts]
+    if not chain:
+        raise AnalysisError('StackFrame.get_variable: look-up chain not found')
+    if 'constants' not in chain or chain.index('constants') > chain.index('vars'):
+        R.ok(gv, 'variables are looked up before constants')
+        return
+    param = rs.params[1] if len(rs.params) > 1 else 'constants'
+    stores = [n for n in walk_own(rs.node) if isinstance(n, ast.Assign)
+              and any(isinstance(t, ast.Attribute) and t.attr == 'constants'
+                      for t in n.targets)]
+    if not stores:
+        raise AnalysisError('CallStack.reset: store of the constants not found')
+    for s in stores:
+        verdict = _alias_or_fresh(s.value, param)
+        R.check(rs, norm(s)[:70], verdict == 'fresh',
+                'when the machine hands over its (empty) constants dictionary, '
+                'the root frame keeps that very object (%s): every `define` '
+                'executed later becomes visible to all frames, and since '
+                'constants are looked up first a parameter or local spelled '
+                'like a later constant reads the constant - arguments are '
+                'ignored, recursion on the parameter does not end'
+                % (verdict or 'cannot be decided'), line=s.lineno)
